@@ -25,6 +25,10 @@ theorem update_block_correct (h : H) (r0 r1 m0 m1 hb : UInt64) (hi : Inv h) (hc 
 
 example : updateBlock ⟨5, 7, 4⟩ rMask0 rMask1 0xFFFFFFFFFFFFFFFF 0xFFFFFFFFFFFFFFFF 1 ≠ none := by decide
 
+/-- non-vacuity: the hypotheses hold for the extreme state (h2 = 4, limbs all ones) with `r` at its clamped maximum -/
+example : Inv ⟨0xFFFFFFFFFFFFFFFF, 0xFFFFFFFFFFFFFFFF, 4⟩ ∧ Clamped rMask0 rMask1 ∧ (1 : UInt64).toNat ≤ 1 := by
+  unfold Inv Clamped; decide
+
 /-- the exact limb result, not only its residue: `T mod 2^130 + 5·(T div 2^130)` for the 4-limb product `T` -/
 theorem update_block_limbs (h : H) (r0 r1 m0 m1 hb : UInt64) (hi : Inv h) (hc : Clamped r0 r1)
     (hhb : hb.toNat ≤ 1) :
@@ -93,6 +97,12 @@ theorem mac_writes_eq_spec (key : Bytes) (hk : key.length = 32) (chunks : List B
   rw [hw]
   simpa using sum_tracks_spec key hk m' _ ht
 
+/-- non-vacuity: a concrete key and a chunking that straddles a block boundary -/
+example : (writeAll (initMac (zeros 32)) [zeros 15, [1, 2], zeros 20]).bind Mac.sum
+    = some (tagSpec (zeros 32) (zeros 15 ++ [1, 2] ++ zeros 20)) := by
+  have := mac_writes_eq_spec (zeros 32) (by simp [zeros]) [zeros 15, [1, 2], zeros 20]
+  simpa using this
+
 /-- any two chunkings of the same byte string give the same tag -/
 theorem chunking_invariant (key : Bytes) (hk : key.length = 32) (c1 c2 : List Bytes)
     (h : c1.flatten = c2.flatten) :
@@ -119,6 +129,15 @@ theorem verify_iff (tag key msg : Bytes) (hk : key.length = 32) :
     verifyOneShot tag key msg = some true ↔ tag = tagSpec key msg := by
   simp only [verifyOneShot, sum_eq_spec key msg hk, Option.map_some, Option.some.injEq, ctEq_iff]
   exact eq_comm
+
+/-- non-vacuity of `verify_iff`: Verify accepts the spec tag of a concrete message and rejects a shorter string -/
+example : verifyOneShot (tagSpec (zeros 32) [1, 2, 3]) (zeros 32) [1, 2, 3] = some true ∧
+    verifyOneShot [] (zeros 32) [1, 2, 3] ≠ some true := by
+  refine ⟨(verify_iff _ _ _ (by simp [zeros])).mpr rfl, ?_⟩
+  intro h
+  have := (verify_iff _ _ _ (by simp [zeros])).mp h
+  have hl := natToLE_length 16 (polySpec (zeros 32) [1, 2, 3])
+  rw [tagSpec] at this; rw [← this] at hl; simp at hl
 
 theorem tagSpec_length (key msg : Bytes) : (tagSpec key msg).length = 16 := natToLE_length _ _
 
@@ -171,5 +190,11 @@ theorem run_refines_aux (key : Bytes) (hk : key.length = 32) (calls : List Call)
 theorem run_refines (key : Bytes) (hk : key.length = 32) (calls : List Call) :
     (new key).run calls = specRun key ([], false) calls :=
   run_refines_aux key hk calls (new key) [] (tracks_init key)
+
+/-- non-vacuity of `run_refines`: Write, Sum, then Write panics; Verify of the right tag after Sum is accepted -/
+example : (new (zeros 32)).run [.write [1], .sum [], .verify (tagSpec (zeros 32) [1]), .write [2]]
+    = [.wrote 1, .tag (tagSpec (zeros 32) [1]), .ok true, .panic] := by
+  rw [run_refines _ (by simp [zeros])]
+  simp [specRun, specStep]
 
 end XC.C04
